@@ -73,20 +73,33 @@ def load_lock():
         return json.load(f)
 
 
-def relevant_labels(prop, lock, all_labels):
-    """tasks that generate obligations of this property on the unchanged tree (from the lock);
-    tasks the lock does not know (new FUNCTIONS entries, new functions) always run"""
-    if lock is None:
-        return list(all_labels)
-    known = set(lock.get('tasks', {}))
-    rel = set(lock.get('relevant', {}).get(prop, []))
-    return [l for l in all_labels if l in rel or l not in known]
+EVAL_ROLES = {'op_base', 'op_base_as_node', 'op_override', 'closure', 'builtin', 'helper', 'constant'}
+PROP_ROLES = {
+    'C01': EVAL_ROLES | {'scoped_dict_method', 'sq_parser'},
+    'C02': EVAL_ROLES | {'sq_parser'}, 'C03': EVAL_ROLES | {'sq_parser'},
+    'C04': EVAL_ROLES, 'C05': {'builtin', 'helper'},
+    'C06': {'parser_action', 'token_rule', 'sq_parser'},
+    'C07': None, 'C08': EVAL_ROLES | {'token_rule'},
+    'C09': {'op_override', 'closure', 'parser_action'},
+    'C10': EVAL_ROLES | {'scoped_dict_method', 'sq_parser'},
+    'C11': None, 'C12': {'op_override', 'builtin', 'helper'}, 'C13': {'builtin', 'helper'},
+    'C14': {'op_override', 'builtin', 'helper'}, 'C15': {'token_rule', 'parser_action', 'sq_parser'},
+    'C16': None, 'C17': None, 'C18': {'op_override', 'closure', 'sq_parser', 'token_rule', 'parser_action'},
+    'C19': {'builtin', 'helper'}, 'C20': {'token_rule', 'parser_action', 'sq_parser'},
+}
+
+
+def relevant_tasks(prop, tasks):
+    """tasks whose role can carry obligations of this property.  Chosen by role, never by what the
+    unchanged tree happened to generate: a change may add the first write / call / lookup to a function"""
+    roles = PROP_ROLES.get(prop)
+    return [t.label for t in tasks if roles is None or t.role in roles or t.role == 'canary']
 
 
 def run_symbolic(prop, tier, lock, jobs=None):
     eng, tasks = build(prop)
     labels = [t.label for t in tasks]
-    run_labels = relevant_labels(prop, lock, labels)
+    run_labels = relevant_tasks(prop, tasks) if prop else labels
     jobs = jobs or min(16, max(1, len(run_labels)))
     t0 = time.time()
     ctx = mp.get_context('fork')
@@ -95,6 +108,37 @@ def run_symbolic(prop, tier, lock, jobs=None):
         order = sorted(run_labels, key=lambda l: -(lock or {}).get('tasks', {}).get(l, {}).get('time', 1.0))
         results = pool.map(_run, order, chunksize=1)
     return eng, labels, run_labels, results, time.time() - t0
+
+
+def setup():
+    """offline self-check of the tool chain: nothing is installed or fetched"""
+    import subprocess
+    ok = True
+    try:
+        import z3
+        s = z3.Solver()
+        x = z3.Int('x')
+        s.add(x > 1, x < 3)
+        assert s.check() == z3.sat and s.model()[x].as_long() == 2
+        print('z3', z3.get_version_string(), 'ok')
+    except Exception as e:
+        print('z3 unusable:', e)
+        ok = False
+    p = subprocess.run(['/venv/bin/python', '-c', 'import regex, decimal; print("native python ok")'], capture_output=True, text=True)
+    print(p.stdout.strip() or p.stderr.strip())
+    ok = ok and p.returncode == 0
+    repo = os.environ.get('SQ_REPO', '/repo')
+    if not os.path.isdir(os.path.join(repo, 'smartquery')):
+        print('no smartquery package under', repo)
+        ok = False
+    lean = os.path.join(ROOT, 'lean')
+    if os.path.isdir(lean):
+        for f in sorted(os.listdir(lean)):
+            if f.endswith('.lean'):
+                q = subprocess.run(['lean', os.path.join(lean, f)], capture_output=True, text=True)
+                print('lean', f, 'ok' if q.returncode == 0 else 'FAILED: ' + (q.stdout + q.stderr)[-400:])
+                ok = ok and q.returncode == 0
+    return 0 if ok else 3
 
 
 def main(argv=None):
@@ -109,6 +153,8 @@ def main(argv=None):
     from sqv import report
     if args.prop == 'relock':
         return report.relock(run_symbolic, ALL_PROPS)
+    if args.prop == 'setup':
+        return setup()
     if args.replay:
         from sqv import replay
         return replay.rerun(args.replay)
